@@ -4,3 +4,4 @@ import Wormhole.Generated
 import Wormhole.Sys
 import Wormhole.Core
 import Wormhole.Ws
+import Wormhole.Inv.Defs
